@@ -25,8 +25,7 @@ ASSUME \A t \in 1..NT : TLCSet(t, 0)
 
 T == Traces[tid]
 Init == /\ tid \in 1..NT /\ l = 1
-        /\ rank = IF Traces[tid].routine = "dmrg_cross" THEN CrossInit0(Traces[tid].N, Traces[tid].rank0)
-                  ELSE InterpInit0(Traces[tid].N, Traces[tid].rank0)
+        /\ rank = SweepInit0(Traces[tid].N, Traces[tid].rank0)
         /\ k = 0 /\ dir = "LR"
 
 Next ==
